@@ -699,6 +699,8 @@ def run(ctx):
               ctx.where(sm_, fdm))
     c12.to_dict_tol(ctx, sm_, sm_.method('Simulation', 'to_dict'),
                     'C17.K2.plain')
+    c12.plain_strip(ctx, sm_, sm_.method('Simulation', 'to_dict'),
+                    'C17.K2.plain')
     # the constructor keeps the data as given: no dtype cast of the data
     # sets (real-valued noise arrays / standard deviations must stay real)
     su_ = ctx.repo.mod('emg3d/surveys.py')
